@@ -12,8 +12,8 @@ def files : List (String × List Directive) := [
   ("/ipscacheqm.html", [.allowIps [1], .cache .queryMatters]),
   ("/hidecache.html", [.hide, .cache .maxAge]),
   -- a directive nobody mounted before the guard is passed over
-  ("/unkips.html", [.allowIps [1]]),
-  ("/unkhide.html", [.hide]),
+  ("/unkips.html", mountedOf [.unknown, .known (.allowIps [1])]),
+  ("/unkhide.html", mountedOf [.unknown, .known .hide, .unknown]),
   ("/ips.html", [.allowIps [1]]),
   ("/ipscache.html", [.allowIps [1], .cache .full]),
   ("/cacheips.html", [.cache .full, .allowIps [1]]),
